@@ -2,9 +2,15 @@ package c13
 
 import (
 	"bytes"
+	stdx509 "crypto/x509"
+	"encoding/asn1"
 	"fmt"
 	"math/big"
+	"math/bits"
+	"strings"
 	"time"
+
+	uocsp "golang.org/x/crypto/ocsp"
 
 	"github.com/zmap/zcrypto/x509"
 	zpkix "github.com/zmap/zcrypto/x509/pkix"
@@ -161,47 +167,257 @@ func diffSigned(a, b *ocsp.Response) string {
 	return ""
 }
 
-// classifyUnsigned looks at the fields NOT covered by the response signature (Signature, SignatureAlgorithm,
-// Certificate) of an accepted mutant whose signed fields all agree with the original.  It returns
+// ---- independent structural view of a (possibly mutated) response: standard library encoding/asn1 only ----
+
+type mAlgID struct {
+	Algorithm  asn1.ObjectIdentifier
+	Parameters asn1.RawValue `asn1:"optional"`
+}
+
+// mBasicRaw does NOT descend into the TBS: what matters here is which bytes are the TBS, the algorithm, the signature.
+type mBasicRaw struct {
+	TBS   asn1.RawValue
+	Alg   mAlgID
+	Sig   asn1.BitString
+	Certs []asn1.RawValue `asn1:"explicit,tag:0,optional"`
+}
+
+type indep struct {
+	ok      bool
+	tbs     []byte // complete TLV of tbsResponseData
+	alg     asn1.ObjectIdentifier
+	sig     []byte // BIT STRING contents without the unused-bits octet
+	sigBits int    // BitLength
+	certs   [][]byte
+}
+
+func indepDecode(der []byte) (x indep) {
+	var r mResponse
+	if rest, err := asn1.Unmarshal(der, &r); err != nil || len(rest) != 0 || r.Status != 0 || !r.Response.ResponseType.Equal(oidBasic) {
+		return
+	}
+	var b mBasicRaw
+	if rest, err := asn1.Unmarshal(r.Response.Response, &b); err != nil || len(rest) != 0 {
+		return
+	}
+	x.ok, x.tbs, x.alg, x.sig, x.sigBits = true, b.TBS.FullBytes, b.Alg.Algorithm, b.Sig.Bytes, b.Sig.BitLength
+	for _, c := range b.Certs {
+		x.certs = append(x.certs, c.FullBytes)
+	}
+	return
+}
+
+// splitCert cuts a Certificate into the complete TLVs of tbsCertificate, signatureAlgorithm, signatureValue (plain TLV walk).
+// Bytes after the third element inside the SEQUENCE are tolerated (Go's encoding/asn1 and zcrypto's fork ignore extra
+// elements at the end of a SEQUENCE mapped to a struct; a mutated length of the first embedded certificate can push one
+// byte of the next certificate in there) — they are outside tbsCertificate and signatureValue.
+func splitCert(b []byte) (tbs, alg, sig []byte, ok bool) {
+	h, l, k := tl(b, 0)
+	if !k || h+l != len(b) {
+		return
+	}
+	off := h
+	var parts [3][]byte
+	for i := range parts {
+		hh, ll, kk := tl(b, off)
+		if !kk {
+			return
+		}
+		parts[i] = b[off : off+hh+ll]
+		off += hh + ll
+	}
+	return parts[0], parts[1], parts[2], off <= len(b)
+}
+
+// protectedRegion: byte ranges of the ORIGINAL response of which no single byte may change in an accepted mutant:
+// the signed tbsResponseData, the signatureAlgorithm OID, the whole signature BIT STRING (tag, length, unused-bits octet,
+// value), and — because acceptance through an embedded certificate rests on them — the first embedded certificate's
+// tbsCertificate and signature BIT STRING.
+func protectedRegion(name string) bool {
+	switch name {
+	case "tbsResponseData", "sigalg-oid", "sig-bitstring-hdr", "sig", "cert0-tbs", "cert0-sig-bitstring-hdr", "cert0-sig":
+		return true
+	}
+	return false
+}
+
+// tctx: one signed response under mutation.
+type tctx struct {
+	iss   *ent
+	cert  *x509.Certificate
+	ucert *stdx509.Certificate
+	der   []byte
+	rs    []region
+	orig  *ocsp.Response
+	oi    indep
+	c0tbs []byte
+	c0sig []byte
+	upOK  bool // the reference implementation (golang.org/x/crypto/ocsp) accepts the untampered response
+}
+
+func newTctx(ca int, certArg string, der []byte) (*tctx, string) {
+	c := &tctx{iss: pool()[ca], der: der}
+	if certArg != "n" {
+		c.cert = &x509.Certificate{SerialNumber: bigOf(certArg)}
+		c.ucert = &stdx509.Certificate{SerialNumber: bigOf(certArg)}
+	}
+	var err error
+	if c.orig, err = ocsp.ParseResponseForCert(der, c.cert, c.iss.cert); err != nil {
+		return nil, "harness inconsistency: the untampered response is rejected: " + err.Error()
+	}
+	c.rs = regions(der)
+	if c.oi = indepDecode(der); !c.oi.ok {
+		return nil, "harness inconsistency: the untampered response does not decode with the standard library"
+	}
+	if len(c.oi.certs) > 0 {
+		var ok bool
+		if c.c0tbs, _, c.c0sig, ok = splitCert(c.oi.certs[0]); !ok {
+			return nil, "harness inconsistency: embedded certificate of the untampered response is not a 3-element SEQUENCE"
+		}
+	}
+	// the reference implementation must accept what zcrypto accepts, starting with the untampered response (it does for
+	// every key type and default algorithm of the pool; all of them are SHA-2 based)
+	if _, uerr := uocsp.ParseResponseForCert(der, c.ucert, c.iss.std); uerr != nil {
+		return nil, "the untampered response is accepted by zcrypto but rejected by golang.org/x/crypto/ocsp: " + uerr.Error()
+	}
+	c.upOK = true
+	return c, ""
+}
+
+// judge decides about a mutant (one byte at pos differs from the original) that zcrypto ACCEPTED with result r.
+// Rule: an accepted mutant must carry byte-identical tbsResponseData, an identical signature value including its
+// BitLength and an identical signatureAlgorithm OID (decided on the bytes, by position and by an independent decode —
+// not on what zcrypto reports), must be reported with exactly the original's fields, and
 //
-//	""                       nothing differs at all (mutation confined to wrapper bytes)
-//	"cert-outer"             only the embedded certificate's encoding outside TBS/signature/algorithm differs
-//	"cert-dropped"           the embedded certificate is gone and the response verifies directly under the issuer
-//	"ecdsa-sig-trailing"     the signature is the original one followed by extra bytes, issuer key is ECDSA and zcrypto's
-//	                         verify primitive accepts it (x509.CheckSignatureFromKey, *AugmentedECDSA branch ignores trailing data)
-//	"!…"                     anything else: a violation
-func classifyUnsigned(orig, r *ocsp.Response, iss *ent) string {
-	certSame := (orig.Certificate == nil) == (r.Certificate == nil) && (orig.Certificate == nil || bytes.Equal(orig.Certificate.Raw, r.Certificate.Raw))
-	sigSame := bytes.Equal(orig.Signature, r.Signature) && orig.SignatureAlgorithm == r.SignatureAlgorithm
-	if certSame && sigSame {
-		return ""
+//	wrapper        differs only in bytes no decoder looks at (lengths of EXPLICIT wrappers, which Go's encoding/asn1 and
+//	               its zcrypto fork do not compare with the inner element; algorithm parameters)
+//	trailing-cert  differs only in embedded certificates after the first (documented as ignored)
+//	cert-dropped   the optional certs field is no longer recognised and the response verifies DIRECTLY under the issuer key
+//	               (checked here with the standard library on the independently decoded bytes)
+//	cert-outer     the first embedded certificate differs outside its tbsCertificate and signatureValue (its outer,
+//	               unsigned signatureAlgorithm copy, which zcrypto's x509 never reads; the signed inner copy is used)
+//
+// are the only classes allowed; anything else is a violation.  In addition the reference implementation
+// golang.org/x/crypto/ocsp must accept what zcrypto accepts (except cert-outer, which crypto/x509 refuses).
+func (c *tctx) judge(mut []byte, pos int, r *ocsp.Response) (class, viol string) {
+	reg := regionOf(c.rs, pos)
+	if protectedRegion(reg) {
+		return "", "a byte of " + reg + " changed"
 	}
-	// the accepted mutant must still be bound to the issuer, by zcrypto's own primitive, on the fields it reports
-	if r.Certificate == nil {
-		if r.CheckSignatureFrom(iss.cert) != nil {
-			return "!accepted without a valid issuer signature"
+	m := indepDecode(mut)
+	switch {
+	case !m.ok:
+		return "", "accepted bytes do not decode as a BasicOCSPResponse with the standard library"
+	case !bytes.Equal(m.tbs, c.oi.tbs):
+		return "", "tbsResponseData bytes differ from the signed ones"
+	case !bytes.Equal(m.sig, c.oi.sig) || m.sigBits != c.oi.sigBits:
+		return "", fmt.Sprintf("signature value differs (BitLength %d -> %d)", c.oi.sigBits, m.sigBits)
+	case !m.alg.Equal(c.oi.alg):
+		return "", "signatureAlgorithm OID differs"
+	}
+	if d := diffSigned(c.orig, r); d != "" {
+		return "", "signed field " + d + " reported differently"
+	}
+	if !bytes.Equal(r.Signature, c.orig.Signature) || r.SignatureAlgorithm != c.orig.SignatureAlgorithm {
+		return "", "Signature / SignatureAlgorithm reported differently"
+	}
+	class = "wrapper"
+	switch {
+	case len(c.oi.certs) == 0:
+		if len(m.certs) != 0 || r.Certificate != nil {
+			return "", "an embedded certificate appeared"
 		}
-	} else if r.CheckSignatureFrom(r.Certificate) != nil ||
-		iss.cert.CheckSignature(r.Certificate.SignatureAlgorithm, r.Certificate.RawTBSCertificate, r.Certificate.Signature) != nil {
-		return "!accepted without a valid chain to the issuer"
-	}
-	if !sigSame {
-		if orig.SignatureAlgorithm == r.SignatureAlgorithm && !isRSA(iss) && r.Certificate == nil && len(r.Signature) > len(orig.Signature) &&
-			bytes.HasPrefix(r.Signature, orig.Signature) {
-			return "ecdsa-sig-trailing"
+	case len(m.certs) == 0:
+		if r.Certificate != nil {
+			return "", "Certificate reported although the certs field is gone"
 		}
-		return "!Signature/SignatureAlgorithm changed"
-	}
-	if r.Certificate == nil {
-		return "cert-dropped"
-	}
-	if orig.Certificate != nil {
-		ca, cb := orig.Certificate, r.Certificate
-		if bytes.Equal(ca.RawTBSCertificate, cb.RawTBSCertificate) && bytes.Equal(ca.Signature, cb.Signature) && ca.SignatureAlgorithm == cb.SignatureAlgorithm {
-			return "cert-outer"
+		if !refVerify(c.iss.std.PublicKey, m.alg, m.tbs, asn1.BitString{Bytes: m.sig, BitLength: m.sigBits}.RightAlign()) {
+			return "", "embedded certificate dropped and the response does not verify directly under the issuer"
+		}
+		class = "cert-dropped"
+	default:
+		if r.Certificate == nil || !bytes.Equal(r.Certificate.Raw, m.certs[0]) {
+			return "", "reported Certificate is not the first embedded certificate"
+		}
+		if !bytes.Equal(m.certs[0], c.oi.certs[0]) {
+			t, _, s, ok := splitCert(m.certs[0])
+			if !ok || !bytes.Equal(t, c.c0tbs) || !bytes.Equal(s, c.c0sig) {
+				return "", "tbsCertificate / signatureValue of the embedded certificate changed"
+			}
+			class = "cert-outer"
+		} else if len(m.certs) != len(c.oi.certs) {
+			class = "trailing-cert"
+		} else {
+			for i := range m.certs {
+				if !bytes.Equal(m.certs[i], c.oi.certs[i]) {
+					class = "trailing-cert"
+				}
+			}
 		}
 	}
-	return "!Certificate changed"
+	if c.upOK {
+		if _, uerr := uocsp.ParseResponseForCert(mut, c.ucert, c.iss.std); uerr != nil {
+			if class != "cert-outer" {
+				return "", "accepted by zcrypto but rejected by golang.org/x/crypto/ocsp (" + uerr.Error() + ")"
+			}
+			class += ",upstream-rejects"
+		}
+	}
+	return class, ""
+}
+
+// try applies one mutation and records the verdict.
+func (c *tctx) try(o *zv.Out, mut []byte, pos int, m byte, rejected *int) {
+	copy(mut, c.der)
+	mut[pos] ^= m
+	r, err := ocsp.ParseResponseForCert(mut, c.cert, c.iss.cert)
+	if err != nil {
+		*rejected++
+		return
+	}
+	reg := regionOf(c.rs, pos)
+	class, viol := c.judge(mut, pos, r)
+	if viol != "" {
+		if o.Viol == "" {
+			certArg := "n"
+			if c.cert != nil {
+				certArg = c.cert.SerialNumber.String()
+			}
+			o.Viol = fmt.Sprintf("tampered response accepted: byte %d (%s) 0x%02x -> 0x%02x: %s; single-position replay: c13 tamper <ca> %s %d %d 255 0 <der>",
+				pos, reg, c.der[pos], mut[pos], viol, certArg, pos, pos+1)
+		}
+		o.Tags = append(o.Tags, "tamper:ACCEPTED-CHANGED@"+reg)
+		return
+	}
+	o.Tags = append(o.Tags, "tamper:accepted("+class+")@"+reg)
+}
+
+// sweep tries the masks at one position.  Where the unchanged code accepts almost every value (length octets of EXPLICIT
+// wrappers, bytes of ignored trailing certificates, the embedded certificate's unread outer algorithm) every acceptance
+// costs up to four signature verifications, so after `dense` (8) accepted mutants at a position only every 16th further
+// mask is tried.  Rejections never shorten the sweep, and every accepted mutant that is tried is judged.
+func (c *tctx) sweep(o *zv.Out, mut []byte, pos int, masks []byte, rejected *int) {
+	const dense = 8
+	accepted := 0
+	for i, m := range masks {
+		if accepted >= dense && i%16 != 0 {
+			continue
+		}
+		before := *rejected
+		c.try(o, mut, pos, m, rejected)
+		if *rejected == before {
+			accepted++
+		}
+	}
+}
+
+func rejTags(o *zv.Out, rejected int) {
+	for i := 0; i < rejected/100; i++ {
+		o.Tags = append(o.Tags, "tamper:rejected(x100)")
+	}
+	for i := 0; i < rejected%100; i++ {
+		o.Tags = append(o.Tags, "tamper:rejected(x1)")
+	}
 }
 
 func masksFor(nmask int, seed uint64, pos int) []byte {
@@ -214,8 +430,13 @@ func masksFor(nmask int, seed uint64, pos int) []byte {
 	}
 	r := zv.NewRng(seed*0x9e3779b97f4a7c15 + uint64(pos))
 	rnd := func() byte { return byte(1 + r.Intn(255)) }
-	if nmask <= 4 {
+	switch {
+	case nmask <= 2: // one walking bit (bit 0 at the positions = 0 mod 8 …) and one random value
+		return []byte{1 << uint(pos&7), rnd()}
+	case nmask <= 4:
 		return []byte{0x01, 0x80, 0xff, rnd()}
+	case nmask <= 6:
+		return []byte{0x01, 0x80, 0xff, 1 << uint(pos&7), rnd(), rnd()}
 	}
 	return []byte{1, 2, 4, 8, 16, 32, 64, 128, 0xff, rnd(), rnd(), rnd()}
 }
@@ -227,16 +448,10 @@ func execTamper(f []string) zv.Out {
 	}
 	ca, from, to, nmask, seed := atoi(f[1]), atoi(f[3]), atoi(f[4]), atoi(f[5]), uint64(atoi64(f[6]))
 	der := zv.UnHex(f[7])
-	iss := pool()[ca]
-	var cert *x509.Certificate
-	if f[2] != "n" {
-		cert = &x509.Certificate{SerialNumber: bigOf(f[2])}
+	c, bad := newTctx(ca, f[2], der)
+	if c == nil {
+		return zv.Out{Viol: bad}
 	}
-	orig, err := ocsp.ParseResponseForCert(der, cert, iss.cert)
-	if err != nil {
-		return zv.Out{Viol: "harness inconsistency: the untampered response is rejected: " + err.Error()}
-	}
-	rs := regions(der)
 	if to > len(der) {
 		to = len(der)
 	}
@@ -244,42 +459,93 @@ func execTamper(f []string) zv.Out {
 	rejected := 0
 	mut := make([]byte, len(der))
 	for pos := from; pos < to; pos++ {
-		for _, m := range masksFor(nmask, seed, pos) {
-			copy(mut, der)
-			mut[pos] ^= m
-			r, err := ocsp.ParseResponseForCert(mut, cert, iss.cert)
-			if err != nil {
-				rejected++
-				continue
+		c.sweep(&o, mut, pos, masksFor(nmask, seed, pos), &rejected)
+	}
+	rejTags(&o, rejected)
+	return o
+}
+
+// structural positions of a response: every byte that is tag, length, unused-bits octet, algorithm identifier, status,
+// response type — i.e. everything except the bulk contents of the TBS / signatures / certificates' TBS, of which the
+// TLV header bytes and the first and last content byte are kept.
+func structuralPositions(der []byte, rs []region) (ps []int, bulk map[int]bool) {
+	bulk = map[int]bool{}
+	for _, r := range rs {
+		if strings.HasPrefix(r.name, "cert") && !strings.HasPrefix(r.name, "cert0-") && !strings.HasPrefix(r.name, "certs-") {
+			continue // certificates after the first are ignored by the parser: covered by the every-position stream only
+		}
+		bulkTLV := r.name == "tbsResponseData" || strings.HasSuffix(r.name, "-tbs")
+		bulkRaw := r.name == "sig" || strings.HasSuffix(r.name, "-sig")
+		switch {
+		case bulkTLV:
+			h, _, _ := tl(der, r.from)
+			for p := r.from; p < r.from+h+1 && p < r.to; p++ {
+				ps = append(ps, p)
+				bulk[p] = p >= r.from+h
 			}
-			reg := regionOf(rs, pos)
-			viol := func(what string) {
-				if o.Viol == "" {
-					o.Viol = fmt.Sprintf("tampered response accepted: byte %d (%s) xor 0x%02x: %s; replay with from=%d to=%d", pos, reg, m, what, pos, pos+1)
-				}
-				o.Tags = append(o.Tags, "tamper:ACCEPTED-CHANGED@"+reg)
+			ps = append(ps, r.to-1)
+			bulk[r.to-1] = true
+		case bulkRaw:
+			ps = append(ps, r.from)
+			bulk[r.from] = true
+			if r.to-1 > r.from {
+				ps = append(ps, r.to-1)
+				bulk[r.to-1] = true
 			}
-			if d := diffSigned(orig, r); d != "" {
-				viol("signed field " + d + " changed")
-				continue
-			}
-			switch c := classifyUnsigned(orig, r, iss); {
-			case c == "":
-				o.Tags = append(o.Tags, "tamper:accepted-unsigned-wrapper@"+reg)
-			case c[0] == '!':
-				viol(c[1:])
-			default:
-				o.Tags = append(o.Tags, "tamper:accepted-unsigned("+c+")@"+reg)
+		default:
+			for p := r.from; p < r.to; p++ {
+				ps = append(ps, p)
 			}
 		}
 	}
-	for i := 0; i < rejected/100; i++ {
-		o.Tags = append(o.Tags, "tamper:rejected(x100)")
+	return
+}
+
+// tstruct line: ca cert part nparts seed der — ALL 255 values at every structural position p with index%nparts == part
+// (12 masks inside the embedded certificate's outer algorithm OID / parameters, where every value is accepted and each
+// acceptance costs four signature verifications; certificates after the first are left to the every-position stream).
+func execTStruct(f []string) zv.Out {
+	if len(f) != 7 {
+		panic("tstruct: wrong number of fields")
 	}
-	for i := 0; i < rejected%100; i++ {
-		o.Tags = append(o.Tags, "tamper:rejected(x1)")
+	ca, part, nparts, seed := atoi(f[1]), atoi(f[3]), atoi(f[4]), uint64(atoi64(f[5]))
+	der := zv.UnHex(f[6])
+	c, bad := newTctx(ca, f[2], der)
+	if c == nil {
+		return zv.Out{Viol: bad}
 	}
+	o := zv.Out{}
+	rejected := 0
+	mut := make([]byte, len(der))
+	sp, bulk := structuralPositions(der, c.rs)
+	for i, pos := range sp {
+		if i%nparts != part {
+			continue
+		}
+		reg := regionOf(c.rs, pos)
+		n := 255
+		if reg == "cert0-sigalg-oid" || reg == "cert0-sigalg-params" {
+			n = 12
+		}
+		if bulk[pos] { // a content byte: any change is caught (or not) by the signature check alone
+			n = 12
+		}
+		c.sweep(&o, mut, pos, masksFor(n, seed, pos), &rejected)
+		o.Tags = append(o.Tags, "tstruct:pos@"+reg)
+	}
+	rejTags(&o, rejected)
 	return o
+}
+
+// sigTrailingZeros: number of zero bits at the end of the response signature (8 = last byte is zero).  A mutant whose
+// unused-bits octet is k is well-formed DER only if the last k bits of the value are zero, so the generator asks for
+// signatures with trailing zero bits to make the "unused bits 0 -> k" mutants reach the signature check.
+func sigTrailingZeros(der []byte) int {
+	x := indepDecode(der)
+	if !x.ok || len(x.sig) == 0 {
+		return 0
+	}
+	return bits.TrailingZeros8(x.sig[len(x.sig)-1])
 }
 
 func genTamper(g *zv.Gen) {
@@ -290,32 +556,41 @@ func genTamper(g *zv.Gen) {
 		cert string
 		der  []byte
 	}
-	create := func(ca, mode, variant int) target {
+	// create: CreateResponse output, re-made (fresh serial, hence fresh signature also for RSA) until the signature ends in tz zero bits
+	create := func(ca, mode, variant, tz int) target {
 		signer, rcert, embed := respSetup(ca, mode)
-		t := ocsp.Response{Status: variant % 3, SerialNumber: new(big.Int).SetBytes(r.Bytes(1 + r.Intn(19))), ThisUpdate: time.Unix(1700000000+int64(r.Intn(1000000)), 0),
-			RevokedAt: time.Unix(1600000000+int64(r.Intn(1000000)), 0), IssuerHash: 0}
-		t.RevocationReason = 0
-		if variant%3 == 1 {
-			t.RevocationReason = 1 + t.RevocationReason + 3
+		var best []byte
+		for attempt := 0; attempt < 1500; attempt++ {
+			t := ocsp.Response{Status: variant % 3, SerialNumber: new(big.Int).SetBytes(r.Bytes(1 + r.Intn(19))), ThisUpdate: time.Unix(1700000000+int64(r.Intn(1000000)), 0),
+				RevokedAt: time.Unix(1600000000+int64(r.Intn(1000000)), 0), IssuerHash: 0}
+			if variant%3 == 1 {
+				t.RevocationReason = 4
+			}
+			if variant&1 == 1 {
+				t.NextUpdate = t.ThisUpdate.Add(24 * time.Hour)
+				t.ExtraExtensions = []zpkix.Extension{{Id: []int{1, 3, 6, 1, 4, 1, 99999, 10}, Value: []byte{4, 2, 1, 2}}}
+			}
+			if variant&2 == 2 {
+				t.IssuerHash = 5
+			}
+			if embed != nil {
+				t.Certificate = embed.cert
+			}
+			der, err := ocsp.CreateResponse(p[ca].cert, rcert.cert, t, signer.key)
+			if err != nil {
+				panic(err)
+			}
+			if best == nil || sigTrailingZeros(der) > sigTrailingZeros(best) {
+				best = der
+			}
+			if sigTrailingZeros(best) >= tz {
+				break
+			}
 		}
-		if variant&1 == 1 {
-			t.NextUpdate = t.ThisUpdate.Add(24 * time.Hour)
-			t.ExtraExtensions = []zpkix.Extension{{Id: []int{1, 3, 6, 1, 4, 1, 99999, 10}, Value: []byte{4, 2, 1, 2}}}
-		}
-		if variant&2 == 2 {
-			t.IssuerHash = 5
-		}
-		if embed != nil {
-			t.Certificate = embed.cert
-		}
-		der, err := ocsp.CreateResponse(p[ca].cert, rcert.cert, t, signer.key)
-		if err != nil {
-			panic(err)
-		}
-		return target{ca, "n", der}
+		return target{ca, "n", best}
 	}
-	asm := func(ca, mode int) target {
-		sp := &asmSpec{ca: ca, rtag: 2, produced: 1700000000, signer: p[ca]}
+	asm := func(ca, mode, tz int) target {
+		sp := &asmSpec{ca: ca, rtag: 2, produced: 1700000000 + int64(r.Intn(100000))*60, signer: p[ca], sigTZ: tz}
 		rs := responderOf(ca)
 		if mode == 1 {
 			sp.signer, sp.certs = rs, [][]byte{rs.der, responderOf((ca + 1) % nCA).der}
@@ -335,46 +610,68 @@ func genTamper(g *zv.Gen) {
 			g.Emitf("c13 tamper %d %s %d %d %d %d %s", t.ca, t.cert, a, b, nmask, r.U64()>>12, zv.Hex(t.der))
 		}
 	}
-	// full coverage of every position
-	nFull, maskFull := g.N(1, 12), g.N(4, 12)
+	// (1) structural positions, deterministic in every tier: ALL 255 values of every tag / length / unused-bits /
+	// algorithm-identifier byte of every wrapper, for every issuer key type x {issuer-signed, delegated responder,
+	// issuer-signed with certificate, hand-assembled with two certificates}.  The issuer-signed response of every CA has a
+	// signature ending in >= 7 zero bits, so that unused-bits 1..7 are all well-formed; the others end in >= 3.
+	const nparts = 4
+	estruct := func(t target) {
+		for part := 0; part < nparts; part++ {
+			g.Emitf("c13 tstruct %d %s %d %d %d %s", t.ca, t.cert, part, nparts, r.U64()>>12, zv.Hex(t.der))
+		}
+	}
+	for rep := 0; rep < g.N(1, 3); rep++ {
+		for ca := 0; ca < nCA; ca++ {
+			estruct(create(ca, 0, rep+ca, 7))
+			estruct(create(ca, 1, rep+ca+1, 3))
+			estruct(create(ca, 4, rep+ca+2, 3))
+			estruct(asm(ca, 1, 3))
+			if rep > 0 {
+				estruct(asm(ca, 0, 7))
+			}
+		}
+	}
+	// (2) every position x a few masks (quick: a walking bit and a random value; the structural positions had all 255 in (1))
+	nFull, maskFull := g.N(1, 8), g.N(2, 12)
 	for rep := 0; rep < nFull; rep++ {
 		for ca := 0; ca < nCA; ca++ {
 			for _, mode := range []int{0, 1, 4} {
-				for v := 0; v < 2; v++ {
-					t := create(ca, mode, rep*2+v+ca)
+				for v := 0; v < g.N(1, 2); v++ {
+					t := create(ca, mode, rep*2+v+ca+mode+int(g.Seed), 1+v)
 					emit(t, 0, len(t.der), maskFull)
 				}
 			}
 			for mode := 0; mode < 2; mode++ {
-				t := asm(ca, mode)
+				t := asm(ca, mode, 1+mode)
 				emit(t, 0, len(t.der), maskFull)
 			}
 		}
 	}
-	// every one of the 255 single-byte mutations at every position (thorough: all CAs; quick: one small response)
+	// (3) every one of the 255 single-byte mutations at every position (thorough: all CAs; quick: one small response, the CA rotating with the seed over P-256, RSA-1024, P-224, RSA-2048)
 	if g.Quick {
-		t := create(2, 0, 1)
+		// (P-384 / P-521 issuers only in the thorough tier: ~85 000 verifications at 0.5-1.5 ms each)
+		t := create([]int{2, 0, 4, 1}[g.Seed%4], 0, 1, 2)
 		emit(t, 0, len(t.der), 255)
 	} else {
 		for ca := 0; ca < nCA; ca++ {
 			for _, mode := range []int{0, 1} {
-				t := create(ca, mode, ca+mode)
+				t := create(ca, mode, ca+mode, 2)
 				emit(t, 0, len(t.der), 255)
 			}
-			t := asm(ca, 1)
+			t := asm(ca, 1, 2)
 			emit(t, 0, len(t.der), 255)
 		}
 	}
-	// sampled windows over many more responses
-	n := g.N(150, 3000)
+	// (4) sampled windows over many more responses
+	n := g.N(100, 2000)
 	for i := 0; i < n; i++ {
 		var t target
 		if r.Chance(20) {
-			t = asm(r.Intn(nCA), r.Intn(2))
+			t = asm(r.Intn(nCA), r.Intn(2), r.Intn(3))
 		} else {
-			t = create(r.Intn(nCA), []int{0, 1, 4}[r.Intn(3)], r.Intn(12))
+			t = create(r.Intn(nCA), []int{0, 1, 4}[r.Intn(3)], r.Intn(12), r.Intn(3))
 		}
 		from := r.Intn(len(t.der))
-		emit(t, from, min(from+64, len(t.der)), 12)
+		emit(t, from, min(from+g.N(48, 64), len(t.der)), g.N(6, 12))
 	}
 }
